@@ -431,7 +431,14 @@ func (s *StateMachine) applyOnDisk(ss pb.Snapshot, init bool) {
 	s.mustBeOnDiskSM()
 	s.onDiskIndex = ss.OnDiskIndex
 	if ss.Imported && init {
-		s.onDiskInitIndex = ss.OnDiskIndex
+		// the record of an imported snapshot carries no OnDiskIndex, the state just
+		// loaded is the exported state, that is the state at the snapshot index.
+		// snapshots streamed to other replicas have to say so, or a replica with
+		// an empty state machine would not recover from them
+		if s.onDiskIndex == 0 {
+			s.onDiskIndex = ss.Index
+		}
+		s.onDiskInitIndex = s.onDiskIndex
 	}
 }
 
